@@ -203,7 +203,11 @@ def with_repeated_literals(prog, rnd):
 
     def f(p):
         if seen and rnd.random() < 0.4:
-            return rnd.choice(seen)
+            q = rnd.choice(seen)
+            if rnd.random() < 0.4:
+                # the same name with other coordinates (an editor shows both; they are two marks)
+                return (q[0], q[1], 2 - q[2] if q[2] in (0, 2) else q[2], q[3], q[4] + 1, q[5])
+            return q
         seen.append(p)
         return p
 
